@@ -21,6 +21,7 @@ import (
 
 type c09Case struct {
 	IvSec   int64   `json:"iv"`
+	History [][]int `json:"history"` // earlier producer sets installed on the SAME cluster (elections)
 	Members []int   `json:"members"` // indices into the key table (duplicates allowed)
 	Signer  int     `json:"signer"`
 	TsNs    int64   `json:"ts"`     // absolute timestamp, or offset from now if Rel
@@ -71,6 +72,15 @@ func TestVerifC09Engine(t *testing.T) {
 		}
 		slot.Init(c.IvSec)
 		cl := &bp.Cluster{}
+		for _, h := range c.History {
+			hs := make([]string, len(h))
+			for i, m := range h {
+				hs[i] = ids[m]
+			}
+			if err := cl.Update(hs); err != nil {
+				t.Fatal(err)
+			}
+		}
 		ms := make([]string, len(c.Members))
 		for i, m := range c.Members {
 			ms[i] = ids[m]
